@@ -342,6 +342,8 @@ def run(ctx):
     reps = 5 if ctx.tier == "quick" else 5
     jobs = [dict(config=c, seed=ctx.seed * 1000 + 13 * i + k, n_examples=n) for i, c in enumerate(CONFIG_MODULE) for k in range(reps)]
     total = core.run_shards("harness.checks.c20", "hash_shard", jobs)
+    total.merge_json(core.run_shards_optimised("harness.checks.c20", "hash_shard",
+                                               [dict(config=c, seed=ctx.seed * 1000 + 900 + i, n_examples=12) for i, c in enumerate(CONFIG_MODULE)]).to_json())
     cases = selection_cases()
     total.merge_json(core.run_shards("harness.checks.c20", "selection_shard", [dict(cases=cases[i::16]) for i in range(16)]).to_json())
     ctx.stats = total
